@@ -86,6 +86,7 @@ type loopInfo struct {
 	hasVar   bool
 	modLocals map[*ssa.Alloc]map[string]bool
 	modCells  []modCell
+	frameNames []string
 }
 
 type deferred struct {
@@ -574,10 +575,21 @@ func (vc *VC) enterLoop(fr *Frame, li *loopInfo, merged *State, phiEntry map[*ss
 		vc.havocAll(st, fr.allLocalRoots())
 	} else {
 		for name := range mods {
+			var prev Term
 			if t, ok := st.mem[name]; ok {
-				st.mem[name] = vc.q.Fresh(name+"$loop", t.Sort)
+				prev = t
 			} else if s, ok := vc.memSorts[name]; ok {
-				st.mem[name] = vc.q.Fresh(name+"$loop", s)
+				prev = vc.get(st, name, s)
+			} else {
+				continue
+			}
+			nm := vc.q.Fresh(name+"$loop", prev.Sort)
+			st.mem[name] = nm
+			if ls != nil && ls.FrameOld && strings.HasPrefix(string(prev.Sort), "(Array Int (Array Path") {
+				// checked at every back edge: rows of objects that existed at function entry are untouched
+				a0 := vc.top.entry.alloc.S
+				vc.q.Raw(fmt.Sprintf("(assert (forall ((r Int)) (! (=> (< r %s) (= (select %s r) (select %s r))) :pattern ((select %s r)))))", a0, nm.S, prev.S, nm.S))
+				li.frameNames = append(li.frameNames, name)
 			}
 		}
 	}
@@ -669,6 +681,18 @@ func (vc *VC) checkLoopBack(fr *Frame, li *loopInfo, est *State, predIdx int) {
 			lbl = fmt.Sprintf("%d", i)
 		}
 		vc.addObl(fr, est, "inv-preserved", fmt.Sprintf("loop%d/%s", li.ordinal, lbl), g, inv, token.NoPos)
+	}
+	for _, name := range li.frameNames {
+		head := li.headSt.mem[name]
+		cur, ok := est.mem[name]
+		if !ok || cur.S == head.S {
+			continue
+		}
+		r := vc.q.Fresh("lf$r", SInt)
+		p := vc.q.Fresh("lf$p", SPath)
+		goal := Implies(Lt(r, vc.top.entry.alloc), Eq(Select(Select(cur, r), p), Select(Select(head, r), p)))
+		vc.addObl(fr, est, "loop-frame", fmt.Sprintf("loop%d/%s", li.ordinal, name), goal,
+			&Clause{Kind: "loop frame-old", Text: "objects that existed at function entry are not modified (" + name + ")", File: fr.con.File, Line: fr.con.Line}, token.NoPos)
 	}
 	if ls.Decreases != nil && li.hasVar {
 		env := vc.newEnv(fr, est, fr.entry)
